@@ -4,7 +4,7 @@
    (creation order in a growing network): setHelper(q) changes no property ranked below q other than q itself and leaves alone every
    evaluator-driven tree all of whose inputs rank below q. *)
 From KDB Require Import Util UtilProofs PropDefs PropFlags PropLink PropLinkBasics PropLinkOps PropLinkTheorems PropSim PropMixedLazy.
-From KDB Require PropAbs PropAbsProofs PropAbsLazy PropProofs PropReg PropSimLazy PropGrowMore PropGrowLazyMore.
+From KDB Require PropLinkMove PropMove PropAbs PropAbsProofs PropAbsLazy PropProofs PropReg PropSimLazy PropGrowMore PropGrowLazyMore.
 Module A := PropAbs.
 Module AP := PropAbsProofs.
 Module L := PropAbsLazy.
@@ -382,6 +382,29 @@ Section Rank.
     - apply (rord_weaken rk w' _ lo (S (rk q))); [lia|]. apply IH; [intros rb' Hi; apply Hall; right; exact Hi|exact Hr].
   Qed.
 
+  (* renaming the targets keeps the order if the new ranking gives the renamed target its old rank *)
+  Lemma rord_renamed rk rk' w w' (rho : nat -> nat) : forall l lo,
+    (forall rb ls q, In rb l -> bview w (snd rb) = Some (ls, Some q) -> (exists ls', bview w' (snd rb) = Some (ls', Some (rho q))) /\ rk' (rho q) = rk q) ->
+    rord rk w l lo -> rord rk' w' l lo.
+  Proof.
+    induction l as [|rb r IH]; intros lo Hall H; cbn [rord] in *; [exact I|]. destruct H as (ls & q & Hb & Hlo & Hr).
+    destruct (Hall rb ls q (or_introl eq_refl) Hb) as ((ls' & Hb') & Erk). exists ls', (rho q). split; [exact Hb'|]. rewrite Erk. split; [exact Hlo|].
+    apply IH; [intros rb' ls0 q0 Hi; apply Hall; right; exact Hi|exact Hr].
+  Qed.
+
+  (* dropping entries and renaming the targets of those that stay *)
+  Lemma rord_filter_renamed rk rk' w w' (rho : nat -> nat) (f : nat * nat -> bool) : forall l lo,
+    (forall rb ls q, In rb l -> f rb = true -> bview w (snd rb) = Some (ls, Some q) ->
+       (exists ls', bview w' (snd rb) = Some (ls', Some (rho q))) /\ rk' (rho q) = rk q) ->
+    rord rk w l lo -> rord rk' w' (filter f l) lo.
+  Proof.
+    induction l as [|rb r IH]; intros lo Hall H; cbn [rord filter] in *; [exact I|]. destruct H as (ls & q & Hb & Hlo & Hr).
+    destruct (f rb) eqn:Ef.
+    - cbn [rord]. destruct (Hall rb ls q (or_introl eq_refl) Ef Hb) as ((ls' & Hb') & Erk). exists ls', (rho q). split; [exact Hb'|]. rewrite Erk. split; [exact Hlo|].
+      apply IH; [intros rb' ls0 q0 Hi; apply Hall; right; exact Hi|exact Hr].
+    - apply (rord_weaken rk' w' _ lo (S (rk q))); [lia|]. apply IH; [intros rb' ls0 q0 Hi; apply Hall; right; exact Hi|exact Hr].
+  Qed.
+
   Lemma RANKED_same rk M w w' :
     (forall b, bview w' b = bview w b) -> w_evps w' = w_evps w -> (forall y, lookup (w_props w') y <> None -> lookup (w_props w) y <> None) ->
     RANKED rk M w -> RANKED rk M w'.
@@ -561,6 +584,98 @@ Section Rank.
         * apply (rord_transfer rk rk w w2 _ 0); [|exact (K2 id st Hst)].
           intros rb Hi. split; [|auto]. destruct (Nat.eq_dec id (b_evp x)) as [->|Hne]; [congruence|apply (Keep id st rb Hst Hi); left; exact Hne].
       + intros y Hy. apply K3. unfold w2 in Hy; cbn [set_props w_props] in Hy. rewrite lookup_bind in Hy. destruct (Nat.eqb_spec y p) as [E|E]; [rewrite E, Hp; discriminate|rewrite <- P1; exact Hy].
+    - (* PMoveCtor: the destination takes the rank of the source *)
+      destruct (PropMove.movector_shape fn rtl fuel w src dst w' Hinv Hna HNE H) as (s0 & dn & sn & Hs & Hd & Hne & Vd & Ud & Vs & Us & PW & Sw & HB & _ & HT & EV & LEN).
+      assert (Pd : pview w dst = None) by (unfold pview; rewrite Hd; reflexivity).
+      set (rk' := bump rk dst (rk src)).
+      assert (Erk : forall y, y <> dst -> rk' (PropMove.rn src dst y) = rk y).
+      { intros y Hy. unfold rk', bump, PropMove.rn. destruct (Nat.eqb_spec y src) as [->|Hys]; [rewrite Nat.eqb_refl; reflexivity|].
+        destruct (Nat.eqb_spec y dst); [contradiction|reflexivity]. }
+      (* the view of every binding: the old one renamed *)
+      assert (BV : forall b ls tg, bview w b = Some (ls, tg) -> bview w' b = Some (map (PropLinkMove.mvl src dst) ls, option_map (PropMove.rn src dst) tg)).
+      { intros b ls tg Hb. unfold bview in *. pose proof (HB b) as Hbb. destruct (get_bind w b) as [x|] eqn:Hx; [|discriminate Hb].
+        destruct (get_bind w' b) as [x'|] eqn:Hx'; [|destruct Hbb]. destruct (HT b x x' Hx Hx') as (Et & El). inversion Hb; subst ls tg. rewrite Et, El. reflexivity. }
+      assert (BVb : forall b ls' tg', bview w' b = Some (ls', tg') -> exists ls tg, bview w b = Some (ls, tg) /\ ls' = map (PropLinkMove.mvl src dst) ls /\ tg' = option_map (PropMove.rn src dst) tg).
+      { intros b ls' tg' Hb'. pose proof (HB b) as Hbb. unfold bview in Hb'. destruct (get_bind w' b) as [x'|] eqn:Hx'; [|discriminate Hb'].
+        destruct (get_bind w b) as [x|] eqn:Hx; [|destruct Hbb]. exists (leaves (b_root x)), (b_target x). split; [unfold bview; rewrite Hx; reflexivity|].
+        pose proof (BV b _ _ ltac:(unfold bview; rewrite Hx; reflexivity)) as E. unfold bview in E. rewrite Hx' in E. inversion E; subst. inversion Hb'; subst. auto. }
+      assert (Tgx : forall b ls q, bview w b = Some (ls, Some q) -> q <> dst).
+      { intros b ls q Hb ->. destruct (pi_tgt _ _ _ _ _ _ _ Hinv _ _ _ Hb) as (v & Ev & _). congruence. }
+      exists rk', M. split; [|split].
+      + intros b ls' q' lf' y' Hb' Hlf' Hty'. destruct (BVb b ls' (Some q') Hb') as (ls & tg & Hb & -> & Etg).
+        destruct tg as [q|]; [|discriminate Etg]. cbn [option_map] in Etg. inversion Etg; subst q'.
+        apply in_map_iff in Hlf'. destruct Hlf' as (lf & <- & Hlf). rewrite (PropLinkMove.mvl_tg src dst lf Hne) in Hty'.
+        destruct (lf_tg lf) as [y0|] eqn:Ety; [|discriminate Hty'].
+        assert (Hl : has_leaf w b lf) by (exists ls, (Some q); split; [exact Hb|exact Hlf]).
+        assert (Hy0 : y0 <> dst) by (intros ->; exact (pi_leafx _ _ _ _ _ _ _ Hinv _ _ _ Hl Ety Pd)).
+        destruct (Nat.eqb_spec y0 dst); [contradiction|].
+        assert (Ey' : y' = PropMove.rn src dst y0) by (unfold PropMove.rn; destruct (Nat.eqb y0 src); congruence). subst y'.
+        rewrite (Erk y0 Hy0), (Erk q (Tgx b ls q Hb)). exact (K1 b ls q lf y0 Hb Hlf Ety).
+      + intros id st Hst. rewrite EV in Hst. apply (rord_renamed rk rk' w w' (PropMove.rn src dst)); [|exact (K2 id st Hst)].
+        intros rb ls q _ Hb. split; [exists (map (PropLinkMove.mvl src dst) ls); exact (BV _ _ _ Hb)|exact (Erk q (Tgx _ ls q Hb))].
+      + intros y Hy. rewrite PW in Hy. unfold rk', bump. destruct (Nat.eqb_spec y dst) as [Eyd|Hyd]; [apply K3; rewrite Hs; discriminate|].
+        destruct (Nat.eqb_spec y src) as [Eys|Hys]; [subst y; apply K3; rewrite Hs; discriminate|exact (K3 y Hy)].
+    - (* PMoveAssign over an unread destination: the destination takes the rank of the source, its old binding leaves the registry *)
+      pose proof (PropGrowMore.no_reader_sound w dst Ho) as Hnr.
+      destruct (PropMove.moveassign_shape fn rtl fuel w dst src w' Hinv Hna HNE Hnr H)
+        as (s0 & d0 & dn & sn & Hs & Hd & Hne & Vd & Ud & Vs & Us & PW & Sw & HB & HT & HD & LEN).
+      assert (Pd : pview w dst = Some (psigs_of d0)) by (unfold pview; rewrite Hd; reflexivity).
+      set (rk' := bump rk dst (rk src)).
+      assert (Erk : forall y, y <> dst -> rk' (PropMove.rn src dst y) = rk y).
+      { intros y Hy. unfold rk', bump, PropMove.rn. destruct (Nat.eqb_spec y src) as [->|Hys]; [rewrite Nat.eqb_refl; reflexivity|].
+        destruct (Nat.eqb_spec y dst); [contradiction|reflexivity]. }
+      assert (Dead : forall b, pr_updater d0 = Some b -> bview w' b = None).
+      { intros b E. rewrite E in HD. destruct HD as (x & _ & Hn & _). unfold bview. rewrite Hn. reflexivity. }
+      assert (BV : forall b ls tg, pr_updater d0 <> Some b -> bview w b = Some (ls, tg) ->
+                     bview w' b = Some (map (PropLinkMove.mvl src dst) ls, option_map (PropMove.rn src dst) tg)).
+      { intros b ls tg Hnb Hb. unfold bview in *. pose proof (HB b Hnb) as Hbb. destruct (get_bind w b) as [x|] eqn:Hx; [|discriminate Hb].
+        destruct (get_bind w' b) as [x'|] eqn:Hx'; [|destruct Hbb]. destruct (HT b x x' Hnb Hx Hx') as (Et & El). inversion Hb; subst ls tg. rewrite Et, El. reflexivity. }
+      assert (BVb : forall b ls' tg', bview w' b = Some (ls', tg') -> pr_updater d0 <> Some b /\
+                      exists ls tg, bview w b = Some (ls, tg) /\ ls' = map (PropLinkMove.mvl src dst) ls /\ tg' = option_map (PropMove.rn src dst) tg).
+      { intros b ls' tg' Hb'. assert (Hnb : pr_updater d0 <> Some b) by (intros E; rewrite (Dead b E) in Hb'; discriminate Hb').
+        split; [exact Hnb|]. pose proof (HB b Hnb) as Hbb. unfold bview in Hb'. destruct (get_bind w' b) as [x'|] eqn:Hx'; [|discriminate Hb'].
+        destruct (get_bind w b) as [x|] eqn:Hx; [|destruct Hbb]. exists (leaves (b_root x)), (b_target x). split; [unfold bview; rewrite Hx; reflexivity|].
+        pose proof (BV b _ _ Hnb ltac:(unfold bview; rewrite Hx; reflexivity)) as E. unfold bview in E. rewrite Hx' in E. inversion E; subst. inversion Hb'; subst. auto. }
+      (* a surviving binding does not update dst *)
+      assert (Tgx : forall b ls q, pr_updater d0 <> Some b -> bview w b = Some (ls, Some q) -> q <> dst).
+      { intros b ls q Hnb Hb ->. destruct (pi_tgt _ _ _ _ _ _ _ Hinv _ _ _ Hb) as (v & Ev & Uv). rewrite Pd in Ev. inversion Ev; subst v. cbn in Uv. congruence. }
+      exists rk', M. split; [|split].
+      + intros b ls' q' lf' y' Hb' Hlf' Hty'. destruct (BVb b ls' (Some q') Hb') as (Hnb & ls & tg & Hb & -> & Etg).
+        destruct tg as [q|]; [|discriminate Etg]. cbn [option_map] in Etg. inversion Etg; subst q'.
+        apply in_map_iff in Hlf'. destruct Hlf' as (lf & <- & Hlf). rewrite (PropLinkMove.mvl_tg src dst lf Hne) in Hty'.
+        destruct (lf_tg lf) as [y0|] eqn:Ety; [|discriminate Hty'].
+        assert (Hl : has_leaf w b lf) by (exists ls, (Some q); split; [exact Hb|exact Hlf]).
+        assert (Hy0 : y0 <> dst) by (intros ->; exact (Hnr b lf Hl Ety)).
+        destruct (Nat.eqb_spec y0 dst); [contradiction|].
+        assert (Ey' : y' = PropMove.rn src dst y0) by (unfold PropMove.rn; destruct (Nat.eqb y0 src); congruence). subst y'.
+        rewrite (Erk y0 Hy0), (Erk q (Tgx b ls q Hnb Hb)). exact (K1 b ls q lf y0 Hb Hlf Ety).
+      + intros id st Hst.
+        assert (Ren : forall id' st' rb ls q, nth_error (w_evps w) id' = Some st' -> In rb (ep_registry st') -> pr_updater d0 <> Some (snd rb) ->
+                        bview w (snd rb) = Some (ls, Some q) ->
+                        (exists ls', bview w' (snd rb) = Some (ls', Some (PropMove.rn src dst q))) /\ rk' (PropMove.rn src dst q) = rk q).
+        { intros id' st' rb ls q _ _ Hnb Hb. split; [exists (map (PropLinkMove.mvl src dst) ls); exact (BV _ _ _ Hnb Hb)|exact (Erk q (Tgx _ ls q Hnb Hb))]. }
+        assert (Ef : forall l : list (nat * nat), filter (fun _ => true) l = l) by (induction l as [|a l IHl]; cbn; [reflexivity|rewrite IHl; reflexivity]).
+        destruct (pr_updater d0) as [bd|] eqn:Hud.
+        * destruct HD as (x & Hbx & _ & Ev). rewrite Ev in Hst.
+          assert (Keep : forall id' st' rb, nth_error (w_evps w) id' = Some st' -> In rb (ep_registry st') ->
+                    (id' <> b_evp x \/ fst rb <> b_regid x) -> Some bd <> Some (snd rb)).
+          { intros id' st' [rid c] Hs' Hi Hor E. cbn [snd fst] in *. inversion E; subst c.
+            pose proof (HR id' st' rid bd Hs' Hi) as Hk. unfold PropReg.bkey in Hk. rewrite Hbx in Hk. inversion Hk; subst. destruct Hor as [Ho'|Ho']; apply Ho'; reflexivity. }
+          destruct (nth_error (w_evps w) (b_evp x)) as [ep0|] eqn:He0.
+          -- destruct (Nat.eq_dec (b_evp x) id) as [<-|Hneid].
+             ++ rewrite nth_upd_same in Hst by (apply nth_error_Some; congruence). inversion Hst; subst st. cbn [ep_registry].
+                apply (rord_filter_renamed rk rk' w w' (PropMove.rn src dst)); [|exact (K2 _ ep0 He0)].
+                intros rb ls q Hi Hf Hb. apply (Ren (b_evp x) ep0 rb ls q He0 Hi); [|exact Hb].
+                apply (Keep (b_evp x) ep0 rb He0 Hi). right. cbn in Hf. destruct (Nat.eqb_spec (fst rb) (b_regid x)); [discriminate Hf|assumption].
+             ++ rewrite nth_upd_other in Hst by exact Hneid. rewrite <- (Ef (ep_registry st)).
+                apply (rord_filter_renamed rk rk' w w' (PropMove.rn src dst)); [|exact (K2 id st Hst)].
+                intros rb ls q Hi _ Hb. apply (Ren id st rb ls q Hst Hi); [|exact Hb]. apply (Keep id st rb Hst Hi). left. auto.
+          -- rewrite <- (Ef (ep_registry st)). apply (rord_filter_renamed rk rk' w w' (PropMove.rn src dst)); [|exact (K2 id st Hst)].
+             intros rb ls q Hi _ Hb. apply (Ren id st rb ls q Hst Hi); [|exact Hb]. apply (Keep id st rb Hst Hi). left. intros ->. congruence.
+        * rewrite HD in Hst. rewrite <- (Ef (ep_registry st)). apply (rord_filter_renamed rk rk' w w' (PropMove.rn src dst)); [|exact (K2 id st Hst)].
+          intros rb ls q Hi _ Hb. apply (Ren id st rb ls q Hst Hi); [discriminate|exact Hb].
+      + intros y Hy. rewrite PW in Hy. unfold rk', bump. destruct (Nat.eqb_spec y dst) as [Eyd|Hyd]; [apply K3; rewrite Hs; discriminate|].
+        destruct (Nat.eqb_spec y src) as [Eys|Hys]; [subst y; apply K3; rewrite Hs; discriminate|exact (K3 y Hy)].
     - (* BevNew *) cbn [step1] in H. destruct (lookup (w_bevs w) e); [discriminate H|]. inversion H; subst w'. exists rk, M. split; [|split].
       + intros b ls q lf y Hb. exact (K1 b ls q lf y Hb).
       + intros id st Hst. cbn [set_bevs set_evps w_evps] in Hst.
@@ -569,6 +684,7 @@ Section Rank.
       + exact K3.
     - (* BevCopy *) cbn [step1] in H. destruct (lookup (w_bevs w) src); [|discriminate H]. destruct (lookup (w_bevs w) dst); [discriminate H|].
       inversion H; subst w'. apply Same; reflexivity.
+    - (* BevDel *) cbn [step1] in H. destruct (lookup (w_bevs w) e); [|discriminate H]. inversion H; subst w'. apply Same; reflexivity.
     - (* BevEvalAll *) destruct Ho as (id & He & Hid). pose proof H as H0. cbn [step1] in H0. rewrite He in H0.
       destruct (nth_error (w_evps w) id) as [st|] eqn:Hst; [|discriminate H0].
       destruct (mixed_evalall_one_pass fn rtl rk fuel w e id st w' HML K1 HR He Hid Hst (K2 id st Hst) H) as (_ & V & Ev & _).
